@@ -101,5 +101,39 @@ PROPS = {
         "note": "As C06.",
         "assumptions": ["as C06"],
     },
+    "C04": {
+        "title": "MSM4/MSM7 messages decode to exactly the encoded header and cell data",
+        "design_ref": "DESIGN.md §7 C04, §4.4",
+        "technique": "Lean 4 proof (bit-packing theory, field and column round-trip lemmas by induction, header/satellite/signal stages, attachment = row-major numbering) over layouts regenerated from the source + differential correspondence with an independent Go encoder",
+        "text": "Kernel-checked theorem msm_roundtrip: for both decoder families, every well-formed abstract message (any of the 14 types, any masks with at most 64 cells, any in-range field values incl. "
+                "the 'invalid' markers and all-zero cells, multiple flag per the property, ANY number of trailing zero bytes, any leader/CRC bytes) the model of GetMessage returns exactly the encoded header, "
+                "the lists implied by the masks, every satellite row and every signal cell; attach_spec shows each cell is attached to the satellite/signal id of its cell-mask bit in row-major order; "
+                "pad independence is a corollary. The field layouts and the source of the cell count are regenerated from the code and pinned. The Lean specification encoder is itself tied to an independent "
+                "Go encoder (same bytes), whose messages the real decoder must decode to the expected values (direct oracle).",
+        "note": "Unbounded in masks, values and padding; no fuel, no size bound. The 1023-byte frame limit is not needed by the theorem (it holds for any padding).",
+        "assumptions": ["the decoder is handed the whole frame (leader + payload + CRC), as handler.Analyse does"],
+    },
+    "C05": {
+        "title": "Base-position messages 1005/1006 decode exactly and display to 0.1 mm",
+        "design_ref": "DESIGN.md §7 C05, §4.5",
+        "technique": "Lean 4 proof (field round trip over the regenerated layouts; rejection and no-panic theorems) + differential correspondence; display exactness by exact-integer oracle (partial: float formatting not modelled)",
+        "text": "Kernel-checked theorems: base_roundtrip (every well-formed 1005/1006 message, coordinates over the whole signed 38-bit range, any trailing payload bytes, decodes to exactly its fields), "
+                "base_rejects_wrong_type, base_rejects_short (every too-short frame is an error), base_no_panic (every byte string). Layouts 12/12/6/4/38/2/38/2/38[/16] are regenerated from the source and pinned. "
+                "The 0.1 mm display clause is PARTIAL: the decimal text is checked against exact integer arithmetic by the harness on boundary values (incl. values next to 4th-decimal rounding boundaries) and random "
+                "coordinates at both log levels; the IEEE-754 rounding argument (error <= 2^-29 << 0.5e-4) is in DESIGN.md, not in Lean.",
+        "note": "Display clause is not a theorem: Go's float64 multiplication and fmt %.4f are standard-library/hardware behaviour outside the model.",
+        "assumptions": ["IEEE-754 binary64 hardware arithmetic and fmt's %.4f formatting behave as documented"],
+    },
+    "C07": {
+        "title": "No input can crash or hang framing, decoding or display",
+        "design_ref": "DESIGN.md §7 C07",
+        "technique": "Lean 4 proof (every panicking Go operation modelled as a checked operation; range facts from the length guards by omega; termination measure) + extracted whitelist of risky display expressions + differential correspondence with recover",
+        "text": "Kernel-checked theorems for EVERY byte string: the framing loop terminates (strictly decreasing measure), its leader and timestamp reads are in range, the MSM4/MSM7/1005/1006 decoders and Analyse never "
+                "index out of range (the uint subtractions of the guards never wrap), masks announcing too many cells are an error, and in every decoded MSM the pointers/indices the display dereferences exist. "
+                "Display itself (fmt, hex.Dump) is PARTIAL: the list of expressions in the String methods that can panic by themselves is regenerated from the source and pinned; totality of the formatting code is "
+                "argued and swept (both log levels, under recover) rather than modelled.",
+        "note": "Hang-freedom of display and of the standard library is not modelled; bounded time is checked per case by the harness.",
+        "assumptions": ["fmt, hex.Dump and time formatting do not panic on any value"],
+    },
 }
 NOT_APPLICABLE = {}
